@@ -22,6 +22,10 @@ type SendScript struct {
 	// Trailing: packets (empty DATA frames for id 0) still sent after the FIN echo
 	// and before the stream is closed: the receiver has to read to the end
 	Trailing int `json:"trailing,omitempty"`
+	// LateData > 0 (hostile senders only): after the receiver's FIN and before the
+	// echo, one more DATA packet with content for an id whose request was completed
+	// long ago (the (LateData-1 mod n)-th requested id)
+	LateData int `json:"latedata,omitempty"`
 	// Serial: a single-threaded sender. It announces everything, then repeatedly
 	// reads one packet from the receiver and, if that is a request, streams the
 	// whole file before it reads again (requests wait in the transport meanwhile)
@@ -52,6 +56,8 @@ type RefSendResult struct {
 	AtFin         func() // hook run when FIN is seen, before the echo
 	Interleaved   bool   // DATA of >= 2 ids interleaved
 	TrailingSent  int    // packets handed to the stream after the FIN echo
+	LateDataSent  bool   // the LateData packet was handed to the stream
+	LateDataID    uint32
 	ClosedEarly   bool
 	PacketsSent   int
 	Injected      int
@@ -286,6 +292,20 @@ loop:
 	if res.FinSeen && !ended {
 		if atFin != nil {
 			atFin()
+		}
+		if sc.LateData > 0 {
+			var done []uint32
+			for _, id := range res.Reqs {
+				if res.Terminated[id] {
+					done = append(done, id)
+				}
+			}
+			if len(done) > 0 {
+				res.LateDataID = done[(sc.LateData-1)%len(done)]
+				if end.SendMsg(&types.Packet{Type: types.PACKET_DATA, ID: res.LateDataID, Data: []byte("late content")}) == nil {
+					res.LateDataSent = true
+				}
+			}
 		}
 		end.SendMsg(&types.Packet{Type: types.PACKET_FIN})
 		for i := 0; i < sc.Trailing; i++ {
